@@ -271,6 +271,37 @@ def _get_set_agreement(col, rule="C07.R2"):
             "a named row is looked up in the cache and otherwise resolved by the raising resolver", f"{sorted(named)[:4]}")
 
 
+def _miss_never_subscripts(col, rule="C07.R2"):
+    """`idx = cache.get(key)` is None on a miss: every path from there to `column[idx]` either re-resolves idx or has tested it
+    against None (numpy reads `column[None]` as a new axis: the read returns, the write overwrites, the whole column)"""
+    repo = col.repo
+    n = 0
+    for meth in ("__getitem__", "__setitem__"):
+        sx = tctx(repo, meth)
+        cfg = sx.cfg
+        for nid, nd in cfg.nodes.items():
+            st = nd.ast
+            if nd.kind != "stmt" or not (isinstance(st, ast.Assign) and len(st.targets) == 1 and isinstance(st.targets[0], ast.Name)):
+                continue
+            v = st.value
+            if not (isinstance(v, ast.Call) and isinstance(v.func, ast.Attribute) and v.func.attr == "get" and len(v.args) == 1 and not v.keywords):
+                continue
+            name = st.targets[0].id
+            term = sx.sym.of(v, nid)
+            redefs = [d.nid for k, ds in sx.cx.rd.defs.items() for d in ds if d.name == name and d.kind == "assign" and d.nid != nid]
+            known = sx.branches(("cmp", "is not", term, ("const", "None")))
+            uses = [u for u, un in cfg.nodes.items() if un.kind == "stmt" and un.ast is not None and any(
+                isinstance(x, ast.Subscript) and isinstance(x.slice, ast.Name) and x.slice.id == name for x in ast.walk(un.ast))]
+            if not uses:
+                continue
+            n += 1
+            bad = [u for u in uses if cfg.path_avoiding(nid, u, redefs + known)]
+            col.add(rule, f"Table.{meth}#cache-miss-never-used-as-index:{name}", not bad, sx.loc(bad[0]) if bad else sx.loc(nid),
+                    "the result of the cache lookup subscripts the column only after it was tested against None (or replaced by the resolver's answer)",
+                    f"`{name}` may still be None at {[sx.loc(b) for b in bad[:2]]}")
+    col.count("cache_fast_paths", n)      # none left (the fast path removed or moved into the resolver): nothing to judge here
+
+
 def _int_of_split(t, name, sep, part=1):
     """t == int(<name>.split(self.<sep>, 1)[part])"""
     return S.is_call_of(t, ("glob", "int")) and len(t[2]) == 1 and t[2][0][:1] == ("item",) and t[2][0][2] == part and \
@@ -377,6 +408,21 @@ def _parser(col, rule="C07.R3"):
     okk = okk and bool(rets) and all(S.match(r.value, idx) is not None for r in rets)
     col.add(rule, "Table._get_row_cache_raise#KeyError-when-absent", okk, sx.loc(sx.fn),
             "no such occurrence raises KeyError; otherwise the position found by _get_row_cache is returned", "")
+    # (name,) and (name, count) tuples rely on the defaults: first occurrence, no shift; and the arguments are handed on in order
+    fn0 = repo.method("Table", "_get_row_cache_raise")
+    ps = A.params(fn0)[1:]
+    dflt = dict(zip(reversed(ps), reversed([A.src(d) for d in fn0.args.defaults])))
+    if len(ps) != 3:
+        raise AnalysisError("Table._get_row_cache_raise: expected (row, count, offset) parameters (cannot decide)")
+    okd = dflt.get(ps[1]) in ("0", "None") and dflt.get(ps[2]) == "0"
+    col.add(rule, "Table._get_row_cache_raise#defaults-first-occurrence-no-shift", okd, sx.loc(sx.fn),
+            "a tuple (name,) or (name, count) means the first occurrence / no offset: the omitted arguments default to 0", str(dflt))
+    passes = [m for r in rets for m in [S.match(r.value, idx)] if m is not None]
+    okp = bool(passes) and all(tuple(m["a"]) == (sx.P(0), sx.P(1), sx.P(2)) and not m["k"] or
+                               (tuple(m["a"]) + tuple(v for _k, v in m["k"])) == (sx.P(0), sx.P(1), sx.P(2)) and [k for k, _v in m["k"]] == ps[len(m["a"]):]
+                               for m in passes)
+    col.add(rule, "Table._get_row_cache_raise#arguments-handed-on-in-order", okp, sx.loc(sx.fn),
+            "(row, count, offset) reach _get_row_cache as (row, count, offset)", S.show(rets[0].value)[:80] if rets else "")
 
 
 def _entry_points(col, rule="C07.R4"):
@@ -529,6 +575,8 @@ def check(col: Collector):
         _invalidate_on_write(col)
     with col.rule():
         _get_set_agreement(col)
+    with col.rule():
+        _miss_never_subscripts(col)
     with col.rule():
         _parser(col)
     with col.rule():
